@@ -19,7 +19,7 @@
    Within 1..11 septets these are exactly: 7 septets; 8 septets ending in CR.  Both are refuted below.
    For the decoded TEXT of an alphanumeric address there is additionally D16 (code 0x09), stated as the
    hypothesis [~ In 9 ss] of C19_address_text_is_standard. *)
-From V Require Import Model.TpduRun Spec.Gsm0340 Gen.SmsOctets Proofs.SmsOctetTables Proofs.TpduAlnum Proofs.TpduRoundtrip.
+From V Require Import Model.TpduRun Spec.Gsm0340 Gen.SmsOctets Proofs.SmsOctetTables Proofs.TpduAlnum Proofs.TpduRoundtrip Proofs.TpduFlags.
 Open Scope N_scope.
 
 (* ---- round trip, octet for octet: any first octet, any PID / DCS, any zone sign, any validity period
@@ -63,6 +63,61 @@ Theorem C19_submit_values :
       (forall e, s_vp t = VpEnhanced e -> v = VPEnh (enh_seconds e) (enh_indicator e)) /\
       ud = ud_octets (s_ud t) ++ repeat 0 (N.to_nat (udl (s_ud t)) - List.length (ud_octets (s_ud t))).
 Proof. exact submit_values. Qed.
+
+(* ---- the first-octet parameters BY NAME.  [DF] / [SF] are the field lists (names, declaration order) of
+   DeliverFlags / SubmitFlags regenerated from the running code; [flag_get] looks a field up by its Go name.
+   The decoded flag structure of every well-formed TPDU holds, under each name, the bit GSM 03.40 9.2.2.1 /
+   9.2.2.2 assigns to the parameter of that name:
+     SMS-DELIVER  MessageType = SMS-DELIVER, MoreMessagesToSend = TP-MMS (bit 2), StatusReportIndication = TP-SRI
+                  (bit 5), TPUDHI = TP-UDHI (bit 6), TPRP = TP-RP (bit 7);
+                  KNOWN FINDING deliver/flags/ReplyPath-and-UDHIndicator-fields-hold-unused-bits-3-4: the fields called
+                  ReplyPath / UDHIndicator hold bits 3 / 4 (unused in SMS-DELIVER) - stated here as what they hold,
+                  refuted below as what their names promise (TestFlags pins them there);
+     SMS-SUBMIT   MessageType = SMS-SUBMIT, RejectDuplicates = TP-RD (bit 2), ValidityPeriodFormat = TP-VPF (bits 4..3),
+                  StatusReportRequest = TP-SRR (bit 5), UserDataHeaderIndicator = TP-UDHI (bit 6), ReplyPath = TP-RP
+                  (bit 7) - true since fix 558ac8c; before it ReplyPath and StatusReportRequest were swapped. *)
+Theorem C19_deliver_flags :
+  forall t : s_deliver,
+    deliver_wf t -> addr_ok (d_oa t) ->
+    exists sc fl oa ts ud,
+      sms_unmarshal (layout_deliver t) =
+        Ok ("Deliver"%string, [TVAddr sc; TVFlags fl; TVAddr oa; TVByte (d_pid t); TVByte (d_dcs t); TVTime ts; TVBytes ud]) /\
+      flag_get DF fl "MessageType"%string = 0 /\
+      flag_get DF fl "MoreMessagesToSend"%string = b2n (d_mms t) /\
+      flag_get DF fl "StatusReportIndication"%string = b2n (d_sri t) /\
+      flag_get DF fl "TPUDHI"%string = b2n (d_udhi t) /\
+      flag_get DF fl "TPRP"%string = b2n (d_rp t) /\
+      flag_get DF fl "ReplyPath"%string = b2n (d_bit3 t) /\
+      flag_get DF fl "UDHIndicator"%string = b2n (d_bit4 t).
+Proof. exact deliver_flags_by_name. Qed.
+Theorem C19_submit_flags :
+  forall t : s_submit,
+    submit_wf t -> addr_ok (s_da t) ->
+    exists fl da v ud,
+      sms_unmarshal (layout_submit t) =
+        Ok ("Submit"%string, [TVAddr addr0; TVFlags fl; TVByte (s_mr t); TVAddr da; TVByte (s_pid t); TVByte (s_dcs t); TVVP v; TVBytes ud]) /\
+      flag_get SF fl "MessageType"%string = 3 /\
+      flag_get SF fl "RejectDuplicates"%string = b2n (s_rd t) /\
+      flag_get SF fl "ValidityPeriodFormat"%string = vpf_bits (s_vp t) /\
+      flag_get SF fl "StatusReportRequest"%string = b2n (s_srr t) /\
+      flag_get SF fl "UserDataHeaderIndicator"%string = b2n (s_udhi t) /\
+      flag_get SF fl "ReplyPath"%string = b2n (s_rp t).
+Proof. exact submit_flags_by_name. Qed.
+(* the known finding: a well-formed SMS-DELIVER with TP-UDHI and TP-RP set decodes with ReplyPath = UDHIndicator = 0 *)
+Theorem C19_deliver_old_flag_fields_refuted :
+  deliver_wf w_deliver /\ d_rp w_deliver = true /\ d_udhi w_deliver = true /\
+  exists vs fl, sms_unmarshal (layout_deliver w_deliver) = Ok ("Deliver"%string, vs) /\ nth_error vs 1 = Some (TVFlags fl) /\
+    flag_get DF fl "ReplyPath"%string = 0 /\ flag_get DF fl "UDHIndicator"%string = 0 /\
+    flag_get DF fl "TPRP"%string = 1 /\ flag_get DF fl "TPUDHI"%string = 1.
+Proof. exact deliver_old_flag_fields_refuted. Qed.
+(* the repaired defect (fix 558ac8c): with the field order before it, first octet 0x21 (TP-SRR only) shows ReplyPath *)
+Theorem C19_submit_flag_names_legacy_refuted :
+  flag_get submit_fields_legacy (unmarshal_flags submit_fields_legacy 33 0) "ReplyPath"%string = 1 /\
+  flag_get submit_fields_legacy (unmarshal_flags submit_fields_legacy 33 0) "StatusReportRequest"%string = 0 /\
+  flag_get SF (unmarshal_flags SF 33 0) "ReplyPath"%string = 0 /\
+  flag_get SF (unmarshal_flags SF 33 0) "StatusReportRequest"%string = 1 /\
+  marshal_flags submit_fields_legacy (unmarshal_flags submit_fields_legacy 33 0) 0 = 33.
+Proof. exact submit_flag_names_legacy_refuted. Qed.
 
 (* [addr_text_spec] reads an alphanumeric address in the tables of the running code; those give the
    standard's characters (GSM 03.38 6.2.1 default alphabet and 6.2.1.1 extension table) unless code
